@@ -64,6 +64,16 @@ CHECKS = {
        "that labels matter. The label defect F5 (ids not re-sorted) is recognised exactly and reported as a known finding.",
   design_ref="DESIGN.md 5/C08, 6", note=KERNEL_NOTE,
   technique="property-based testing with tagged observations (provenance oracle) + closed-form differential"),
+ "C12": dict(
+  category="exploration",
+  text="Rule-based state machine (Hypothesis stateful) over a scratch directory: write / refused write / overwrite / same-schema "
+       "append / single-incompatibility appends / read / group round trip / FITS round trip / read_batch in all request forms, "
+       "judged after every step against an in-memory model of what was successfully written (bit-identical values, names, order, "
+       "units, t_ref, poly_trend, n_offsets) and byte hashes for refused operations. Led to one fix: commit (append with a different "
+       "number of columns was accepted).",
+  design_ref="DESIGN.md 5/C12, 6", note="Trusts h5py/PyTables/astropy.io for the byte-level format; FITS stores t_ref as one float64 BMJD (tolerance 1e-9 d). "
+       "Reading through a PyTables Group is documented as unsupported (variable-length strings) and not exercised.",
+  technique="stateful (model-based) property testing against an in-memory reference model"),
  "C14": dict(
   category="exploration",
   text="Generated libraries/profiles/requests/budgets/growth parameters through the real iterative_rejection_sample (3 paths) with "
@@ -99,6 +109,15 @@ CHECKS = {
        "membership and median property of median_period.",
   design_ref="DESIGN.md 5/C17", note="Independent Newton/bisection Kepler solver in longdouble (vt/oracle_gauss.py) is the reference for RV curves.",
   technique="property-based testing: metamorphic (RV invariance) + round-trip + invariant oracles"),
+ "C18": dict(
+  category="exploration",
+  text="Grammar-based generation of valid prior specifications and single-fault corruptions (omitted / unit-less / wrongly "
+       "dimensioned parameter, nine non-Normal laws for every linear parameter and offset, misnamed offset, non-numeric poly_trend, "
+       "wrong power of time) and of data arguments (all container kinds x source counts x offset counts, non-RVData element, "
+       "covariance sources, non-iterables) through three sampler entry points. Oracle: corrupted => raises (priors at construction), "
+       "valid => accepted with par_names in (nonlinear, linear, offsets) order and finite likelihoods.",
+  design_ref="DESIGN.md 5/C18", note="'Raises' accepts any exception type, as the property does. The histogram of (fault kind x parameter) cells is in the evidence.",
+  technique="grammar-based negative testing (generated single-fault corruptions)"),
  "C19": dict(
   category="exploration",
   text="Generated observing patterns (a third with the largest empty arc across phase 1->0), periods, bin counts, sample tables with "
